@@ -372,6 +372,12 @@ func (e *Exec) checkFrame(st *State, fr *Frame, env *Env) {
 			if strings.Contains(l.Obj.Name, ".result") && strings.Contains(l.Obj.Name, "!c") {
 				continue // object returned by a callee during this call: not part of the pre-state
 			}
+			if strings.Contains(l.Obj.Name, "~c") || strings.Contains(l.Obj.Name, "~L") {
+				// object first reached through a pointer that a callee contract (or a
+				// loop) havocked: its contents are whatever that contract says, it is
+				// not a location of this unit's pre-state
+				continue
+			}
 			if strings.HasPrefix(l.Obj.Name, "G:") && false {
 				continue
 			}
@@ -449,7 +455,7 @@ func (e *Exec) checkFrame(st *State, fr *Frame, env *Env) {
 			if allowedGhost[key] || strings.HasPrefix(key, "g_under_") || strings.HasPrefix(key, "counter:") || strings.HasPrefix(key, "g_obs_") {
 				continue
 			}
-			if strings.Contains(key, ".result") && strings.Contains(key, "!c") {
+			if (strings.Contains(key, ".result") && strings.Contains(key, "!c")) || strings.Contains(key, "~c") || strings.Contains(key, "~L") {
 				// ghost state of an object returned by a callee during this
 				// call: not part of the pre-state
 				continue
